@@ -110,7 +110,9 @@ impl Ctx {
         }
         let seed = std::env::var("VERIF_SEED").ok().and_then(|s| s.parse().ok()).unwrap_or(0);
         let root = PathBuf::from(std::env::var("VERIF_ROOT").unwrap_or_else(|_| "/verif".into()));
-        std::panic::set_hook(Box::new(|_| {}));
+        if std::env::var("VERIF_PANIC_VERBOSE").is_err() {
+            std::panic::set_hook(Box::new(|_| {}));
+        }
         guard::install();
         if let Some(n) = std::env::var("VERIF_HANG_SECS").ok().and_then(|s| s.parse().ok()) {
             guard::set_hang_secs(n);
